@@ -59,7 +59,8 @@ namespace vpl
         OPTIMIZING = 4,      // listed in C04
         COST_EXACT = 8,      // stored cost == recomputed path cost (no deferred propagation)
         IGNORES_SAMPLER = 16, // informed planners: steered through U01/UNIT instead of the state-sampler seam
-        MULTILEVEL = 32       // multilevel (bundle-space) planners: two levels R^2 <- SE(2) on plain SE(2) problems, one level otherwise
+        MULTILEVEL = 32,      // multilevel (bundle-space) planners: two levels R^2 <- SE(2) on plain SE(2) problems, one level otherwise
+        VARIANT = 64          // a planner of the table with non-default options (option branches of solve()); reduced configuration sets
     };
 
     template <class P>
@@ -107,6 +108,141 @@ namespace vpl
     {
         auto p = std::make_shared<og::EIRMstar>(si);
         p->setBatchSize(6);
+        return p;
+    }
+
+    // ---- option variants: the non-default branches of the same solve() loops
+    template <class P>
+    ob::PlannerPtr mkInter(const ob::SpaceInformationPtr &si)
+    {
+        auto p = std::make_shared<P>(si);
+        p->setIntermediateStates(true);
+        return p;
+    }
+    inline ob::PlannerPtr mkRRTstarR(const ob::SpaceInformationPtr &si)
+    {
+        auto p = std::make_shared<og::RRTstar>(si);
+        p->setKNearest(false);
+        p->setDelayCC(false);
+        return p;
+    }
+    inline ob::PlannerPtr mkRRTstarPrune(const ob::SpaceInformationPtr &si)
+    {
+        auto p = std::make_shared<og::RRTstar>(si);
+        p->setTreePruning(true);
+        p->setPruneThreshold(0.0);
+        p->setNewStateRejection(true);
+        return p;
+    }
+    inline ob::PlannerPtr mkRRTstarRej(const ob::SpaceInformationPtr &si)
+    {
+        auto p = std::make_shared<og::RRTstar>(si);
+        p->setSampleRejection(true);
+        p->setFocusSearch(false);
+        return p;
+    }
+    inline ob::PlannerPtr mkRRTXeps(const ob::SpaceInformationPtr &si)
+    {
+        auto p = std::make_shared<og::RRTXstatic>(si);
+        p->setEpsilon(0.1);
+        p->setKNearest(false);
+        return p;
+    }
+    inline ob::PlannerPtr mkRRTXv2(const ob::SpaceInformationPtr &si)
+    {
+        auto p = std::make_shared<og::RRTXstatic>(si);
+        p->setVariant(2);
+        p->setAlpha(0.5);
+        return p;
+    }
+    inline ob::PlannerPtr mkRRTsharpV3(const ob::SpaceInformationPtr &si)
+    {
+        auto p = std::make_shared<og::RRTsharp>(si);
+        p->setVariant(3);
+        p->setAlpha(0.5);
+        return p;
+    }
+    inline ob::PlannerPtr mkLBTRRTe(const ob::SpaceInformationPtr &si)
+    {
+        auto p = std::make_shared<og::LBTRRT>(si);
+        p->setApproximationFactor(0.0);
+        return p;
+    }
+    inline ob::PlannerPtr mkFMTr(const ob::SpaceInformationPtr &si)
+    {
+        auto p = std::make_shared<og::FMT>(si);
+        p->setNumSamples(24);
+        p->setNearestK(false);
+        p->setCacheCC(false);
+        p->setHeuristics(true);
+        p->setExtendedFMT(false);
+        return p;
+    }
+    inline ob::PlannerPtr mkBFMTr(const ob::SpaceInformationPtr &si)
+    {
+        auto p = std::make_shared<og::BFMT>(si);
+        p->setNumSamples(24);
+        p->setNearestK(false);
+        p->setExploration(false);
+        p->setTermination(false);
+        p->setHeuristics(true);
+        p->setCacheCC(false);
+        return p;
+    }
+    template <class P>
+    ob::PlannerPtr mkKeep(const ob::SpaceInformationPtr &si)
+    {
+        auto p = std::make_shared<P>(si);
+        p->setKeepLast(true);
+        return p;
+    }
+    inline ob::PlannerPtr mkSTRIDEp(const ob::SpaceInformationPtr &si)
+    {
+        auto p = std::make_shared<og::STRIDE>(si);
+        p->setUseProjectedDistance(true);
+        p->setMinValidPathFraction(0.5);
+        return p;
+    }
+    inline ob::PlannerPtr mkSSTtight(const ob::SpaceInformationPtr &si)
+    {
+        auto p = std::make_shared<og::SST>(si);
+        p->setSelectionRadius(0.6);
+        p->setPruningRadius(0.35);
+        return p;
+    }
+    inline ob::PlannerPtr mkBITopt(const ob::SpaceInformationPtr &si)
+    {
+        auto p = std::make_shared<og::BITstar>(si);
+        p->setSamplesPerBatch(6);
+        p->setUseKNearest(false);
+        p->setStrictQueueOrdering(true);
+        p->setDropSamplesOnPrune(true);
+        p->setDelayRewiringUntilInitialSolution(true);
+        p->setJustInTimeSampling(true);
+        return p;
+    }
+    inline ob::PlannerPtr mkAITr(const ob::SpaceInformationPtr &si)
+    {
+        auto p = std::make_shared<og::AITstar>(si);
+        p->setBatchSize(6);
+        p->setUseKNearest(false);
+        p->enablePruning(false);
+        p->trackApproximateSolutions(false);
+        return p;
+    }
+    inline ob::PlannerPtr mkEITr(const ob::SpaceInformationPtr &si)
+    {
+        auto p = std::make_shared<og::EITstar>(si);
+        p->setBatchSize(6);
+        p->setUseKNearest(false);
+        p->enablePruning(false);
+        p->trackApproximateSolutions(false);
+        return p;
+    }
+    inline ob::PlannerPtr mkLazyPRMk(const ob::SpaceInformationPtr &si)
+    {
+        auto p = std::make_shared<og::LazyPRM>(si);
+        p->setMaxNearestNeighbors(3);
         return p;
     }
 
@@ -188,6 +324,25 @@ namespace vpl
             {"QRRTStar", mkML<ompl::multilevel::QRRTStar>, MULTILEVEL},
             {"QMP", mkML<ompl::multilevel::QMP>, MULTILEVEL},
             {"QMPStar", mkML<ompl::multilevel::QMPStar>, MULTILEVEL},
+            {"RRT+inter", mkInter<og::RRT>, VARIANT}  /* intermediate states: pieces of one validated motion, re-checked at another phase */,
+            {"RRTConnect+inter", mkInter<og::RRTConnect>, VARIANT},
+            {"RRTstar+r", mkRRTstarR, EXACT_EDGES | OPTIMIZING | COST_EXACT | VARIANT},
+            {"RRTstar+prune", mkRRTstarPrune, EXACT_EDGES | OPTIMIZING | COST_EXACT | VARIANT},
+            {"RRTstar+rej", mkRRTstarRej, EXACT_EDGES | OPTIMIZING | COST_EXACT | IGNORES_SAMPLER | VARIANT},
+            {"RRTXstatic+eps", mkRRTXeps, EXACT_EDGES | OPTIMIZING | VARIANT},
+            {"RRTXstatic+v2", mkRRTXv2, EXACT_EDGES | OPTIMIZING | VARIANT},
+            {"RRTsharp+v3", mkRRTsharpV3, EXACT_EDGES | OPTIMIZING | VARIANT},
+            {"LBTRRT+e0", mkLBTRRTe, EXACT_EDGES | OPTIMIZING | VARIANT},
+            {"FMT+r", mkFMTr, EXACT_EDGES | OPTIMIZING | COST_EXACT | VARIANT},
+            {"BFMT+r", mkBFMTr, EXACT_EDGES | OPTIMIZING | COST_EXACT | VARIANT},
+            {"RLRT+keep", mkKeep<og::RLRT>, EXACT_EDGES | VARIANT},
+            {"BiRLRT+keep", mkKeep<og::BiRLRT>, VARIANT},
+            {"STRIDE+proj", mkSTRIDEp, EXACT_EDGES | VARIANT},
+            {"SST+tight", mkSSTtight, EXACT_EDGES | OPTIMIZING | COST_EXACT | VARIANT},
+            {"BITstar+opt", mkBITopt, EXACT_EDGES | OPTIMIZING | COST_EXACT | IGNORES_SAMPLER | VARIANT},
+            {"AITstar+r", mkAITr, EXACT_EDGES | OPTIMIZING | COST_EXACT | IGNORES_SAMPLER | VARIANT},
+            {"EITstar+r", mkEITr, OPTIMIZING | COST_EXACT | IGNORES_SAMPLER | VARIANT},
+            {"LazyPRM+k3", mkLazyPRMk, VARIANT},
         };
         return P;
     }
